@@ -59,6 +59,8 @@ pub enum CollOp {
     AddAlt(u8, u8),
     FromJson(Vec<u8>),
     CloneIt,
+    /// the elements go through a builder that hands the set out again (`CertificatesBuilder::build`); the history continues on that set
+    ViaBuilder,
     RestartBytes,
     RestartHex,
     RestartJson,
@@ -101,10 +103,14 @@ trait Obj {
     fn bytes(&self) -> Vec<u8>;
     fn json(&self) -> Result<String, String>;
     fn boxed_clone(&self) -> Box<dyn Obj>;
+    /// the same set as a builder hands it out after having been given the elements one by one (None: no such path)
+    fn via_builder(&self) -> Option<Box<dyn Obj>> {
+        None
+    }
 }
 
 macro_rules! coll_obj {
-    ($name:ident, $ty:ty, $ety:ty, $elem:expr) => {
+    ($name:ident, $ty:ty, $ety:ty, $elem:expr, $via:expr) => {
         struct $name($ty);
         impl Obj for $name {
             fn add(&mut self, id: u8) {
@@ -128,6 +134,10 @@ macro_rules! coll_obj {
             }
             fn boxed_clone(&self) -> Box<dyn Obj> {
                 Box::new($name(self.0.clone()))
+            }
+            fn via_builder(&self) -> Option<Box<dyn Obj>> {
+                let f: fn(&$ty) -> Option<$ty> = $via;
+                f(&self.0).map(|x| Box::new($name(x)) as Box<dyn Obj>)
             }
         }
     };
@@ -232,13 +242,22 @@ fn e_datum(id: u8) -> csl::PlutusData {
     }
 }
 
-coll_obj!(OInputs, csl::TransactionInputs, csl::TransactionInput, e_input);
-coll_obj!(OKeyHashes, csl::Ed25519KeyHashes, csl::Ed25519KeyHash, e_keyhash);
-coll_obj!(OCreds, csl::Credentials, csl::Credential, e_cred);
-coll_obj!(OCerts, csl::Certificates, csl::Certificate, e_cert);
-coll_obj!(OProps, csl::VotingProposals, csl::VotingProposal, e_proposal);
-coll_obj!(OVkeys, csl::Vkeywitnesses, csl::Vkeywitness, e_vkeywit);
-coll_obj!(OBoots, csl::BootstrapWitnesses, csl::BootstrapWitness, e_bootwit);
+coll_obj!(OInputs, csl::TransactionInputs, csl::TransactionInput, e_input, |_| None);
+coll_obj!(OKeyHashes, csl::Ed25519KeyHashes, csl::Ed25519KeyHash, e_keyhash, |_| None);
+coll_obj!(OCreds, csl::Credentials, csl::Credential, e_cred, |_| None);
+coll_obj!(OCerts, csl::Certificates, csl::Certificate, e_cert, |c| {
+    // the certificates builder keeps what it is given in order of arrival and hands the set out again
+    let mut b = csl::CertificatesBuilder::new();
+    for i in 0..c.len() {
+        if b.add(&c.get(i)).is_err() {
+            return None;
+        }
+    }
+    Some(b.build())
+});
+coll_obj!(OProps, csl::VotingProposals, csl::VotingProposal, e_proposal, |_| None);
+coll_obj!(OVkeys, csl::Vkeywitnesses, csl::Vkeywitness, e_vkeywit, |_| None);
+coll_obj!(OBoots, csl::BootstrapWitnesses, csl::BootstrapWitness, e_bootwit, |_| None);
 
 /// witness-set fields are exercised through the typed setters: the object is a witness set plus
 /// the list that was handed to the setter
@@ -679,6 +698,13 @@ pub fn run_coll(c: &CollCase) -> Outcome {
                     }
                 }
             }
+            CollOp::ViaBuilder => match obj.via_builder() {
+                Some(o) => {
+                    out.count("c16.sets_handed_out_by_a_builder", 1);
+                    obj = o;
+                }
+                None => applied = false,
+            },
             CollOp::CloneIt => {
                 let copy = obj.boxed_clone();
                 held = Some((std::mem::replace(&mut obj, copy), model.clone(), i));
@@ -806,6 +832,7 @@ pub fn run_coll(c: &CollCase) -> Outcome {
             CollOp::Decode { tagged, indefinite, .. } => 2 + *tagged as u64 * 2 + *indefinite as u64,
             CollOp::FromJson(_) => 7,
             CollOp::CloneIt => 8,
+            CollOp::ViaBuilder => 13,
             CollOp::RestartBytes => 9,
             CollOp::RestartHex => 10,
             CollOp::RestartJson => 11,
@@ -1029,7 +1056,8 @@ impl Prop for C16 {
                         let m = r.below(6);
                         (0..m).map(|_| r.below(UNIVERSE as u64) as u8).collect()
                     };
-                    ops.push(match r.below(12) {
+                    ops.push(match r.below(13) {
+                        12 => CollOp::ViaBuilder,
                         0..=4 => CollOp::Add(r.below(UNIVERSE as u64) as u8),
                         5 => CollOp::AddAlt(r.below(UNIVERSE as u64) as u8, 1 + r.below(200) as u8),
                         6 | 7 => CollOp::Decode { ids: ids(&mut r), tagged: r.chance(1, 2), indefinite: r.chance(1, 3), wide: r.chance(1, 4), alt: if r.chance(1, 2) { 1 + r.below(200) as u8 } else { 0 } },
